@@ -18,6 +18,8 @@ import (
 	"unicode"
 	"unicode/utf8"
 
+	"rsc.io/binaryregexp"
+
 	"github.com/corazawaf/coraza/v3/experimental/plugins/macro"
 	"github.com/corazawaf/coraza/v3/experimental/plugins/plugintypes"
 	"github.com/corazawaf/coraza/v3/internal/corazawaf"
@@ -312,13 +314,35 @@ func zlist(idx []int) string {
 	return vh.List(items)
 }
 
+// rxOracle: what the regexp engine selected by newRX answers for "(?sm)"+pattern (the binary
+// matcher for patterns with byte escapes that are not valid UTF-8, Go's regexp otherwise).
 func rxOracle(pat, value string) (idx []int, matched bool, ok bool) {
-	re, err := regexp.Compile("(?sm)" + pat)
+	data := "(?sm)" + pat
+	if operators.VerifC15MatchesArbitraryBytes(data) {
+		re, err := binaryregexp.Compile(data)
+		if err != nil {
+			return nil, false, false
+		}
+		m := re.FindStringSubmatchIndex(value)
+		return m, m != nil, true
+	}
+	re, err := regexp.Compile(data)
 	if err != nil {
 		return nil, false, false
 	}
 	m := re.FindStringSubmatchIndex(value)
 	return m, m != nil, true
+}
+
+// rxResult evaluates @rx pat on value without capture (ok=false: the pattern does not compile)
+func rxResult(pat, value string) (res bool, ok bool) {
+	op, err := operators.Get("rx", plugintypes.OperatorOptions{Arguments: pat})
+	if err != nil {
+		return false, false
+	}
+	tx := newTx(false, nil)
+	defer tx.Close()
+	return op.Evaluate(tx, value), true
 }
 
 func (r *runner) runRx(pat, value string, capture bool) {
